@@ -58,6 +58,29 @@ type hookStats struct {
 	timeCalls, strCalls, fldCalls map[evKey]int
 	genCalls                map[evKey]int
 	byTask                  map[evKey][]string // names of the tasks that invoked a hook for this call
+	foreign                 []string           // hook invocations with a context that carries no call identity at all
+	ctxBad                  map[evKey][]string // hook invocations whose context is not in the state the caller's context is in
+}
+
+// noteCtx compares the state of the context a hook was handed with the state of the context
+// the caller passed (live, cancelled, past its deadline).
+func (h *hookStats) noteCtx(hook string, ctx context.Context, k evKey, ok bool) {
+	if !ok {
+		h.foreign = append(h.foreign, hook)
+		return
+	}
+	var wantErr error
+	switch {
+	case k.ctxMode&4 != 0:
+		wantErr = context.Canceled
+	case k.ctxMode&8 != 0:
+		wantErr = context.DeadlineExceeded
+	}
+	_, hasDL := ctx.Deadline()
+	wantDL := k.ctxMode&4 == 0 && k.ctxMode&8 != 0
+	if ctx.Err() != wantErr || hasDL != wantDL {
+		h.ctxBad[k] = append(h.ctxBad[k], fmt.Sprintf("%s saw Err()=%v deadline=%v, the caller's context has Err()=%v deadline=%v", hook, ctx.Err(), hasDL, wantErr, wantDL))
+	}
 }
 
 func (h *hookStats) noteTask(k evKey) {
@@ -71,6 +94,7 @@ func resetHooks() {
 	hooks.mu.Lock()
 	hooks.timeCalls, hooks.strCalls, hooks.fldCalls, hooks.genCalls = map[evKey]int{}, map[evKey]int{}, map[evKey]int{}, map[evKey]int{}
 	hooks.byTask = map[evKey][]string{}
+	hooks.foreign, hooks.ctxBad = nil, map[evKey][]string{}
 	ctxSharedMu.Lock()
 	ctxShared = map[int][]log.Field{}
 	ctxSharedMu.Unlock()
@@ -99,6 +123,10 @@ func ctxFields(k evKey) []log.Field {
 	if ctxShared[req] == nil {
 		s := make([]log.Field, 2, 16)
 		s[0], s[1] = log.String("trace_id", fmt.Sprintf("trREQ%04d", req)), log.Int("span", 7000+req)
+		if req == 1 {
+			// application keys are free to coincide with the names a layout uses for its own members
+			s[0], s[1] = log.String("level", fmt.Sprintf("trREQ%04d", req)), log.Int("tag", 7000+req)
+		}
 		ctxShared[req] = s
 	}
 	return ctxShared[req]
@@ -114,8 +142,9 @@ func installHooks(timeHook, strHook, fldHook bool) {
 	resetHooks()
 	if timeHook {
 		log.TimeNow = func(ctx context.Context) time.Time {
-			k, _ := ctx.Value(ctxKey).(evKey)
+			k, ok := ctx.Value(ctxKey).(evKey)
 			hooks.mu.Lock()
+			hooks.noteCtx("time hook", ctx, k, ok)
 			hooks.timeCalls[k]++
 			hooks.noteTask(k)
 			hooks.mu.Unlock()
@@ -124,8 +153,9 @@ func installHooks(timeHook, strHook, fldHook bool) {
 	}
 	if strHook {
 		log.StringFromContext = func(ctx context.Context) string {
-			k, _ := ctx.Value(ctxKey).(evKey)
+			k, ok := ctx.Value(ctxKey).(evKey)
 			hooks.mu.Lock()
+			hooks.noteCtx("context-string hook", ctx, k, ok)
 			hooks.strCalls[k]++
 			hooks.noteTask(k)
 			hooks.mu.Unlock()
@@ -137,8 +167,9 @@ func installHooks(timeHook, strHook, fldHook bool) {
 	}
 	if fldHook {
 		log.FieldsFromContext = func(ctx context.Context) []log.Field {
-			k, _ := ctx.Value(ctxKey).(evKey)
+			k, ok := ctx.Value(ctxKey).(evKey)
 			hooks.mu.Lock()
+			hooks.noteCtx("context-fields hook", ctx, k, ok)
 			hooks.fldCalls[k]++
 			hooks.noteTask(k)
 			hooks.mu.Unlock()
